@@ -99,6 +99,11 @@ class PNormalise(Pattern):
     def __repr__(self):
         return ("PNormalise(%s)" % repr(self.input))
 
+    def reset(self):
+        super().reset()
+        self.lower = None
+        self.upper = None
+
     def __next__(self):
         value = Pattern.value(self.input)
 
